@@ -520,10 +520,10 @@ macro_rules! difficulty_fields {
     };
 }
 
-pub fn check_c07(bytes: &[u8], acc: &mut Acc) {
+pub fn check_c07(bytes: &[u8], conversions: bool, acc: &mut Acc) {
     acc.evals += 1;
     acc.states += 1;
-    acc.transitions += 9;
+    acc.transitions += 17;
     let r = guarded(|| {
         let mut diffs: Vec<String> = Vec::new();
         let Ok(map) = rosu_map::from_bytes::<Beatmap>(bytes) else { return (diffs, false) };
@@ -577,6 +577,55 @@ pub fn check_c07(bytes: &[u8], acc: &mut Acc) {
             cmp!("HitObjects", "background/breaks", format!("{:?}", (&h.background_file, &h.breaks)), format!("{:?}", (&map.background_file, &map.breaks)));
             cmp!("HitObjects", "control points", format!("{:?}", h.control_points), format!("{:?}", map.control_points));
             cmp!("HitObjects", "hit objects", format!("{:?}", h.hit_objects), format!("{:?}", map.hit_objects));
+            // the crate's own conversion of the cheaper result into a Beatmap carries everything that was read
+            if !conversions {
+                return (diffs, !map.hit_objects.is_empty() || !map.control_points.timing_points.is_empty() || !map.title.is_empty());
+            }
+            let b = Beatmap::from(h);
+            cmp!("Conversion HitObjects->Beatmap", "general fields", general_fields!(b), general_fields!(map));
+            cmp!("Conversion HitObjects->Beatmap", "difficulty fields", difficulty_fields!(b), difficulty_fields!(map));
+            cmp!("Conversion HitObjects->Beatmap", "background/breaks", format!("{:?}", (&b.background_file, &b.breaks)), format!("{:?}", (&map.background_file, &map.breaks)));
+            cmp!("Conversion HitObjects->Beatmap", "control points", format!("{:?}", b.control_points), format!("{:?}", map.control_points));
+            cmp!("Conversion HitObjects->Beatmap", "hit objects", format!("{:?}", b.hit_objects), format!("{:?}", map.hit_objects));
+        }
+        if let Ok(t) = rosu_map::from_bytes::<TimingPoints>(bytes) {
+            let b = Beatmap::from(t);
+            cmp!("Conversion TimingPoints->Beatmap", "general fields", general_fields!(b), general_fields!(map));
+            cmp!("Conversion TimingPoints->Beatmap", "control points", format!("{:?}", b.control_points), format!("{:?}", map.control_points));
+        }
+        if let Ok(g) = rosu_map::from_bytes::<General>(bytes) {
+            let b = Beatmap::from(g);
+            cmp!("Conversion General->Beatmap", "general fields", general_fields!(b), general_fields!(map));
+        }
+        if let Ok(d) = rosu_map::from_bytes::<Difficulty>(bytes) {
+            let b = Beatmap::from(d);
+            cmp!("Conversion Difficulty->Beatmap", "difficulty fields", difficulty_fields!(b), difficulty_fields!(map));
+        }
+        if let Ok(e) = rosu_map::from_bytes::<Events>(bytes) {
+            let b = Beatmap::from(e);
+            cmp!("Conversion Events->Beatmap", "background/breaks", format!("{:?}", (&b.background_file, &b.breaks)), format!("{:?}", (&map.background_file, &map.breaks)));
+        }
+        if let Ok(c) = rosu_map::from_bytes::<Colors>(bytes) {
+            let b = Beatmap::from(c);
+            cmp!("Conversion Colors->Beatmap", "colours", format!("{:?}", (&b.custom_combo_colors, &b.custom_colors)), format!("{:?}", (&map.custom_combo_colors, &map.custom_colors)));
+        }
+        if let Ok(m) = rosu_map::from_bytes::<Metadata>(bytes) {
+            let b = Beatmap::from(m);
+            cmp!(
+                "Conversion Metadata->Beatmap",
+                "metadata fields",
+                format!("{:?}", (&b.title, &b.title_unicode, &b.artist, &b.artist_unicode, &b.creator, &b.version, &b.source, &b.tags, b.beatmap_id, b.beatmap_set_id)),
+                format!("{:?}", (&map.title, &map.title_unicode, &map.artist, &map.artist_unicode, &map.creator, &map.version, &map.source, &map.tags, map.beatmap_id, map.beatmap_set_id))
+            );
+        }
+        if let Ok(e) = rosu_map::from_bytes::<Editor>(bytes) {
+            let b = Beatmap::from(e);
+            cmp!(
+                "Conversion Editor->Beatmap",
+                "editor fields",
+                format!("{:?}", (&b.bookmarks, b.distance_spacing, b.beat_divisor, b.grid_size, b.timeline_zoom)),
+                format!("{:?}", (&map.bookmarks, map.distance_spacing, map.beat_divisor, map.grid_size, map.timeline_zoom))
+            );
         }
         (diffs, !map.hit_objects.is_empty() || !map.control_points.timing_points.is_empty() || !map.title.is_empty())
     });
@@ -603,7 +652,7 @@ pub fn replay(case: &Value) -> Vec<Violation> {
 
 pub fn replay_c07(case: &Value) -> Vec<Violation> {
     let mut acc = Acc::new();
-    check_c07(&unhex(case["hex"].as_str().unwrap_or("")), &mut acc);
+    check_c07(&unhex(case["hex"].as_str().unwrap_or("")), true, &mut acc);
     acc.viols.into_values().flatten().collect()
 }
 
@@ -702,11 +751,13 @@ pub fn run_generic(prop: &'static str, tier: Tier, args: &[String]) -> i32 {
     if only.is_none() {
         run_witnesses(prop, &mut acc, if is_c01 { &replay } else { &replay_c07 });
     }
-    let f = |_: usize, idx: u64, bytes: &[u8], acc: &mut Acc| {
+    let f = |fam: usize, idx: u64, bytes: &[u8], acc: &mut Acc| {
         if is_c01 {
             check_c01(bytes, acc);
         } else {
-            check_c07(bytes, acc);
+            // quick tier: the conversions into Beatmap (pure functions of the decoded values) only on the families with the
+            // most varied decoded values: record deviations, record pairs, section blocks
+            check_c07(bytes, tier.thorough() || fam == 1 || fam >= 6, acc);
         }
         if idx % 250_007 == 3 {
             acc.sample(|| json!({"input": show_bytes(&bytes[..bytes.len().min(120)])}));
